@@ -21,6 +21,10 @@ def run(ctx):
     D.idle_reset(ctx)
     ctx.rule("R-QUEUE-TYPESTATE", "producer and consumer of the server's data queue agree on the write transaction", floor=3)
     D.queue_typestate(ctx)
+    ctx.rule("R-LISTEN-FIRST", "reply handlers are registered before the frame that provokes the reply is sent (client and server)", floor=4)
+    D.listen_first(ctx)
+    ctx.rule("R-TXN-FRESH", "the value/byte converters read only fields the current transaction has set", floor=2)
+    D.txn_fresh(ctx)
     # back-to-back transactions: the DM16 transfer of one transaction must not keep the pair busy for the next one
     from rules import transport as T, timing as TM
     ctx.rule("R-FINISH-NOW", "an acknowledged J1939-21 send session is released at once (the next multi-packet DM16 is not refused)", floor=2)
